@@ -9,7 +9,7 @@ import struct
 
 from harness import decode_impl as DI
 from harness import frames_gen as G
-from harness import model, proto_impl as PI
+from harness import model, proto_impl as PI, vloop
 from harness.common import Prop
 
 NAN32 = [0x7FC00000, 0xFFC00001, 0x7F800001]
@@ -211,6 +211,9 @@ class C05(Prop):
                           "image": rng.randrange(65536), "model": list(name.encode())})
             cases.append({"kind": "password", "b0": rng.randrange(256), "text": [rng.randrange(0x20, 0x7F) for _ in range(rng.choice([0, 4, 8]))]})
         # captures of tests/testdata
+        for c in cases:
+            if rng.random() < 0.3:
+                c["context"] = True
         for path in ("messages/sensor_data.json", "messages/regulator_data.json", "responses/ecomax_parameters.json",
                      "responses/mixer_parameters.json", "responses/thermostat_parameters.json", "responses/schedules.json",
                      "responses/alerts.json", "responses/uid.json", "responses/password.json", "responses/regulator_data_schema.json"):
@@ -314,10 +317,31 @@ class C05(Prop):
                     except Exception:  # noqa: BLE001  (frozen dataclasses)
                         pass
 
+        def context_device():
+            """a real ecoMAX that has already handled other traffic (a sensor-data message listing mixers and thermostats none of
+            which is connected, then product information): what a frame decodes to must not depend on it"""
+            async def build():
+                dev = EcoMAX(asyncio.Queue(), network=NetworkInfo())
+                nan = 0x7FC00000
+                val = [[], 0, 0, 0, [], [0, 0, 0, 0], [], 50, 0, nan, 0, nan, nan, 0, [[] for _ in range(6)], [],
+                       [[0, [[0, nan, 0], [0, nan, 0]]]], [[nan, 0, 0, 0, 0], [nan, 0, 0, 0, 0], [nan, 0, 0, 0, 0]]]
+                dev.handle_frame(M.SensorDataMessage(message=bytearray(model.call("enc_sensor", val))))
+                for _ in range(8):
+                    pending = [t for t in dev.tasks if not t.done() and "setup" not in t.get_name()]
+                    if pending:
+                        await asyncio.wait(pending, timeout=0)
+                    await asyncio.sleep(0)
+                return dev
+            return vloop.run(build)
+
+        with_context = bool(c.get("context")) and k not in ("regdata", "regulator_data", "thermostat_params", "thermostat_parameters")
+
         def decode_once(scribble_after=False):
             buf = bytearray(payload)
             fr = cls(message=buf)
             dev = None
+            if with_context:
+                fr.assign_to(context_device())
             if k in ("regdata", "regulator_data", "thermostat_params", "thermostat_parameters"):
                 dev = EcoMAX(asyncio.Queue(), network=NetworkInfo())
                 if k in ("regdata",):
@@ -332,7 +356,11 @@ class C05(Prop):
                 data = fr.data
             except Exception as e:  # noqa: BLE001
                 return {"error": type(e).__name__}, bytes(buf) == payload
-            canon = self._canon(k, c, data, t)
+            try:
+                canon = self._canon(k, c, data, t)
+            except Exception as e:  # noqa: BLE001
+                # the decoded data does not have the documented shape (e.g. None where a mapping belongs): that is the observation
+                canon = {"uncanonical": type(e).__name__, "data": repr(data)[:200]}
             if scribble_after:
                 scribble(data)
             return canon, bytes(buf) == payload
